@@ -215,7 +215,7 @@ func init() {
 	register(&explore.Prop{
 		ID: "C02", Level: levelMC, Explorer: "E1 input-space enumerator",
 		Rule: "every list of <=k segments (each a MIX batch of <=2 docs over K kinds, incl. the empty batch) x every deletion bitmap (nil, empty, every subset) x configurations (input chunk modes, input form built/loaded/previously merged, output mode); merged with the real merger, loaded, observed and compared with (a) the reference model and (b) New(survivors); MERGE-LARGE (cardinalities / document counts around 1024); MERGE-ALIAS (the same segment object twice in one list, [S,S] and [S,T,S], every pair of bitmaps); MERGE(2,3,2) under 8 norm tables of unusual float32 bit patterns; LARGE-1HIT (a term with 1023..2048 postings meeting the same term as a 1-hit entry of a previously merged input, that document deleted or kept); MERGE-AGAIN (the same segment objects merged a second time with other bitmaps / in swapped order: the later merge is checked); MERGE-TERM (one (field, term) whose posting per document is one of {absent, f1, f1+loc, f2+loc, f300+2 locs}: every pair of segments of <=2 documents, inputs built or previously merged, with and without a deletion); MERGE-EXTREME (batches with extreme values: huge frequencies/location numbers, 70 000-byte terms and values, thousands of terms/locations/instances - alone, with a partner, twice); " +
-			"distinct = distinct (configuration, segment list, bitmaps); non-trivial = >=1 dropped doc, or two segments share a term, or field lists differ",
+			"further families (DESIGN.md 5 C02): MERGE-ALIAS, NORMS, MERGE-EXTREME, MERGE-TERM, MERGE-AGAIN, LARGE-1HIT (terms x and the empty term), MERGE-ZOO (every ZOO member that is one merge of fresh inputs); MERGE-LARGE deletes the even documents of the first and the odd ones of the second input; distinct = distinct (configuration, segment list, bitmaps); non-trivial = >=1 dropped doc, or two segments share a term, or field lists differ",
 		Assumptions: commonAssumptions, Budget: qBudget, Run: runC02,
 	})
 }
